@@ -44,6 +44,7 @@ def floors(tier):
     f["counter:d1_checks"] = 1000
     f["counter:d2_checks"] = 1000
     f["counter:ref_derivative_crosschecks"] = 500
+    f["counter:refused_calls"] = 400
     return f
 
 
@@ -242,6 +243,24 @@ def run_case(rng, idx, tier, lane, ctx):
     if not np.array_equal(yhat.reshape(-1), np.array(mv2, dtype=float)) or not np.array_equal(y, y_before):
         bad("a kernel modified the caller's observation / prediction array in place")
     mv = mv2
+    # ---- a call that is (rightly) refused - a flag that is not a Python bool, a prediction array of the wrong length - followed by the
+    # proper call with the same predictions: whatever the refused call raised, it leaves nothing behind
+    if not witnesses and rng.random() < 0.5:
+        mv3 = [v * math.exp(rng.gauss(0, 0.3)) for v in mv2]
+        y3 = np.array(mv3, dtype=float).reshape(yhat.shape)
+        entry = rng.choice(["residual", "loss", "diff_loss", "diff2Loss"])
+        how = rng.choice(["numpy-bool-flag", "int-flag", "string-flag", "wrong-length"])
+        try:
+            if how == "wrong-length":
+                getattr(obj, entry)(y3.reshape(-1)[:-1].copy() if m > 1 else np.array([], dtype=float))
+            else:
+                getattr(obj, entry)(y3.copy(), apply_weighting={"numpy-bool-flag": np.bool_(wv is not None), "int-flag": 1, "string-flag": "yes"}[how])
+            counters["refused_calls_accepted"] = 1
+        except Exception:
+            counters["refused_calls"] = 1
+        yhat[...] = y3
+        judge(mv3, "after a refused %s call (%s) with the same predictions" % (entry, how))
+        mv = mv3
     yb = np.array(case["yhat"], dtype=float).reshape(yhat.shape)
 
     def _again(obj=obj, yb=yb):
